@@ -21,6 +21,7 @@ import edzed
 from ..explore import Acc, explore
 from ..harness import Sim, TICK, Livelock
 from ..probes import lblock_class, Fault
+from .. import nets
 
 PROPERTY = 'C09'
 LEVEL = 'fault_enumeration'
@@ -91,6 +92,10 @@ def configs(tier):
     for c in [c for c in out if c['kind'] == 'seq' and any(k == 'M' for k, _t in c['seq'])
               and len(c['seq']) <= 2]:
         out.append(dict(c, mode='task'))
+    for c in [c for c in out if c['kind'] == 'seq']:
+        ts = dict(c['seq'])
+        if 'C' in ts and 'G' in ts and ts['C'] == ts['G']:
+            out.append(dict(c, cb_order=1))     # the other evaluation order of the two blocks
     for entry in ('run_forever', 'run'):
         for exc in ('fault', 'cancel'):
             for then in (None, 'H', 'A'):
@@ -111,8 +116,8 @@ def configs(tier):
 # error propagates through the initialisation); ctl: an initdef's output event is an 'abort'
 # control event; sup: init_regular sends an event to a failing handler and suppresses the
 # error; abort: init_regular calls abort() and carries on
-INIT_SITES = ('raise', 'evt', 'ctl', 'sup', 'abort')
-INIT_QUIET = ('ctl', 'sup', 'abort')        # no exception reaches run_forever()
+INIT_SITES = ('raise', 'evt', 'ctl', 'sup', 'abort', 'early')
+INIT_QUIET = ('ctl', 'sup', 'abort', 'early')       # no exception reaches run_forever()
 
 
 CANCEL_MARK = asyncio.CancelledError('harness: task.cancel()')
@@ -127,6 +132,9 @@ def one_exec(cfg, chooser):
     obs = {'delivered': [], 'fired': [], 'errors': []}
     log = []
     with Sim(chooser, max_iterations=20000) as sim:
+        # the block sets of the simulator iterate in a harness-chosen order (two combinational
+        # blocks failing in one evaluation round: both orders are configurations)
+        nets.install_rank_hash()
         circuit = sim.circuit
         loop = sim.loop
         excs = {k: Tagged(k) for k in KINDS}
@@ -138,7 +146,7 @@ def one_exec(cfg, chooser):
         gdst = lblock_class()('gdst', log=log, cfg={'init_regular': ('set', 0),
                                                       'event': ('raise', excs['G'])})
         ginp = edzed.Input('ginp', initdef=0)
-        edzed.FuncBlock('gfb', func=lambda a: a, on_output=edzed.Event(
+        gfb = edzed.FuncBlock('gfb', func=lambda a: a, on_output=edzed.Event(
             gdst, 'ev', efilter=edzed.not_from_undef)).connect(ginp)
 
         def nested_bad(blk, etype, data):
@@ -158,7 +166,8 @@ def one_exec(cfg, chooser):
                 obs['delivered'].append(('C', excs['C'], sim.now))
                 raise excs['C']
             return a
-        edzed.FuncBlock('fb', func=calc).connect(inp)
+        fb = edzed.FuncBlock('fb', func=calc).connect(inp)
+        nets.set_ranks([fb, gfb], (1, 0) if cfg.get('cb_order') else (0, 1))
         mtime = [t for k, t in seq if k == 'M']
 
         def task_fails(_blk):
@@ -503,6 +512,15 @@ def run_initfault(cfg, acc):
                         pass
                     blk.set_output(0)
                 lblock_class()(f's{i}', log=log, cfg={'init_regular': ('call', suppress)})
+            elif site == 'early':
+                def send_early(blk, i=i):
+                    try:
+                        blk.circuit.findblock(f'e{i}').event('ev', value=1)
+                    except Exception:   # pylint: disable=broad-except
+                        pass
+                    blk.set_output(0)
+                lblock_class()(f's{i}', log=log, cfg={'init_regular': ('call', send_early)})
+                lblock_class()(f'e{i}', log=log, cfg={'init_regular': ('seq', [('set', 0), ('raise', exc)])})
             elif site == 'abort':
                 def do_abort(blk, exc=exc):
                     blk.circuit.abort(exc)
@@ -583,7 +601,7 @@ def run_config(cfg):
         acc.execs += 1
         acc.choice_points += sum(1 for t in ch.trace if t[0] > 1)
         st = obs['state']
-        acc.outcome((cfg['entry'], cfg['seq'], cfg.get('mode'), tuple(k for k, _e, _t in obs['delivered']),
+        acc.outcome((cfg['entry'], cfg['seq'], cfg.get('mode'), cfg.get('cb_order'), tuple(k for k, _e, _t in obs['delivered']),
                      repr(st.get('error')), repr(st.get('main_result'))))
         for sig, msg in judge(cfg, obs):
             acc.violation(f"C09:{sig}", msg, cfg=cfg, choices=ch.choices)
